@@ -230,16 +230,22 @@ impl UserDefinedDataReader {
             return Err(DdsError::NotEnabled);
         }
 
-        match self.next_instance(previous_handle) {
-            Some(next_handle) => self.take(
+        // The next instance is the first one after the previous handle that has samples matching
+        // the requested states
+        let mut handle = *previous_handle;
+        while let Some(next_handle) = self.next_instance(&handle) {
+            match self.take(
                 max_samples,
                 sample_states,
                 view_states,
                 instance_states,
                 &Some(next_handle),
-            ),
-            None => Err(DdsError::NoData),
+            ) {
+                Err(DdsError::NoData) => handle = Some(next_handle),
+                result => return result,
+            }
         }
+        Err(DdsError::NoData)
     }
 
     pub fn read_next_instance(
@@ -254,15 +260,21 @@ impl UserDefinedDataReader {
             return Err(DdsError::NotEnabled);
         }
 
-        match self.next_instance(previous_handle) {
-            Some(next_handle) => self.read(
+        // The next instance is the first one after the previous handle that has samples matching
+        // the requested states
+        let mut handle = *previous_handle;
+        while let Some(next_handle) = self.next_instance(&handle) {
+            match self.read(
                 max_samples,
                 sample_states,
                 view_states,
                 instance_states,
                 &Some(next_handle),
-            ),
-            None => Err(DdsError::NoData),
+            ) {
+                Err(DdsError::NoData) => handle = Some(next_handle),
+                result => return result,
+            }
         }
+        Err(DdsError::NoData)
     }
 }
